@@ -1362,6 +1362,58 @@ def f(ctx):
 
 
 # ---------------------------------------------------------------------------
+
+@R.clause("C20.g", "a replaced registration is deleted (its lifetime timer cancelled) before the new one takes over its key and location")
+def g_replacement(ctx):
+    """Added after an independently written breaking change overwrote the table entries of a re-registered endpoint
+    without calling the old registration's delete(): its lifetime task stayed armed and, on firing, removed the
+    live re-registration.  Necessary condition: in initialize_endpoint, on every non-exceptional path from a
+    successful lookup of the existing registration to the insertion of the new one, the old registration's
+    delete() is called.  Tests of `old is None / is not None` are refined by nullness: on those paths `old` holds the
+    looked-up registration (every other definition of `old` lies in the not-found handler)."""
+    fi = ctx.prog.func("cli.rd.CommonRD.initialize_endpoint")
+    cfg = cfg_of(fi)
+    looks = []
+    for n in walk_no_nested(fi.node):
+        if isinstance(n, ast.Assign) and len(n.targets) == 1 and isinstance(n.targets[0], ast.Name):
+            v = n.value
+            if (isinstance(v, ast.Subscript) and chain(v.value) == "self._by_key") or (isinstance(v, ast.Call) and isinstance(v.func, ast.Attribute) and v.func.attr == "get" and chain(v.func.value) == "self._by_key"):
+                looks.append(n)
+    ctx.ob("initialize_endpoint looks the endpoint's key up in _by_key", len(looks) == 1, fi, looks[0] if looks else fi.node, construct="initialize_endpoint: lookup of the existing registration")
+    if len(looks) != 1:
+        return
+    lk = looks[0]
+    old = lk.targets[0].id
+    ln = cfg.loc1(lk)
+    uses_get = isinstance(lk.value, ast.Call)
+    ins = [n for k, n in stores_to(fi.node, "self._by_key", nested=False) if k == "setitem"]
+    ctx.floor("insertions into _by_key", len(ins), 1)
+    dels = [cfg.loc1(c) for c, b in find("%s.delete()" % old, fi.node)]
+    # nullness refinement
+    hnodes = [n.id for n in cfg.nodes if n.kind == "handler"]
+    other_writes = [w for w in writes_to_name(fi.node, old) if w is not lk]
+    confined = all(any(cfg.dominates(h, cfg.loc1(w)) for h in hnodes) for w in other_writes)
+    none_side = set()
+    if confined or uses_get:
+        for n in cfg.nodes:
+            if n.kind in ("T", "F") and n.ast is not None:
+                if (match("%s is None" % old, n.ast) is not None and n.kind == "T") or (match("%s is not None" % old, n.ast) is not None and n.kind == "F") or \
+                   (isinstance(n.ast, ast.Name) and n.ast.id == old and n.kind == "F"):
+                    none_side.add(n.id)
+    for i_ in ins:
+        inn = cfg.loc1(i_)
+        if uses_get:
+            # found <=> old is not None: start from those branch outcomes
+            starts = [n.id for n in cfg.nodes if n.kind in ("T", "F") and n.ast is not None and ((match("%s is not None" % old, n.ast) is not None and n.kind == "T") or (match("%s is None" % old, n.ast) is not None and n.kind == "F") or (isinstance(n.ast, ast.Name) and n.ast.id == old and n.kind == "T"))]
+            ok = bool(dels) and bool(starts) and all(inn not in cfg.reach({st}, avoid=set(dels) | none_side, skip_labels=("exc",)) for st in starts) and \
+                any(inn in cfg.reach({st}, skip_labels=("exc",)) for st in starts)
+        else:
+            r = cfg.reach({ln}, avoid=set(dels) | none_side, skip_labels=("exc",))
+            ok = bool(dels) and inn not in r
+        ctx.ob("when the endpoint is already registered, the old registration is deleted before the new one is entered under its key", ok, fi, i_,
+               detail="%d delete() site(s) on the old registration" % len(dels))
+
+
 F = "aiocoap/cli/rd.py"
 # C20.a
 R.seed("C20.a", F, "                self.lt = set_lt\n", "                self.lt = set_lt\n                if set_lt < 60:\n                    raise error.BadRequest(\"lt too small\")\n", "raise after self.lt = ... on a published registration")
@@ -1400,3 +1452,6 @@ R.seed("C20.e", F, "        eps = self.common_rd.get_endpoints()\n", "        ep
 # C20.f
 R.seed("C20.f", F, "if any(k in (\"ep\", \"d\") for k in registration_parameters.keys()):", "if any(k in (\"ep\",) for k in registration_parameters.keys()):", "sector may be overwritten by an update")
 R.seed("C20.f", F, "k in (\"page\", \"count\", \"rt\", \"href\", \"anchor\")", "k in (\"page\", \"rt\", \"href\", \"anchor\")", "count accepted as registration parameter")
+
+R.seed("C20.g", F, "        if oldreg is not None:\n            oldreg.delete()\n            if proxy_host is not None:\n                # The old registration's deletion dropped the shared entry\n                setproxyremote(network_remote)\n", "", "old registration's timer left armed: it later deletes the live re-registration")
+R.seed("C20.g", F, "        if oldreg is not None:\n            oldreg.delete()\n", "        if oldreg is not None and proxy_host is not None:\n            oldreg.delete()\n", "old registration deleted only for proxied endpoints")
